@@ -651,6 +651,9 @@ class Service(object):
                 rec.discard_recording()
                 return dict(spec.user_metadata)
             svc.env.run.fault('extractor_junk')
+            if mode == 'junk_lock':
+                import threading
+                return {'n': 1, 'lock': threading.Lock()}        # a well-formed dict holding a value nothing can copy or serialize
             return {'junk_none': None, 'junk_int': 7, 'junk_str': 'text', 'junk_list': [1, 2, 3]}[mode]
 
         ns = {}
@@ -841,6 +844,10 @@ class Interp(object):
         if fault == 'copy_fails':
             call['outcome_override'] = ('value', D.CopyFails(7))
             env.run.fault('copy_fails')
+        if fault == 'raises_opaque':
+            # the intercepted function raises an exception that cannot be copied or serialized: the caller gets exactly it
+            call['outcome_override'] = ('raise', D.ErrOpaque)
+            env.run.fault('raises_opaque')
         if getattr(env, 'copy_fails_everywhere', False):
             # (a value that cannot even be encoded: the copy fails and so does the save - nothing undecodable is stored)
             call['outcome_override'] = ('value', D.Unserializable(7))
@@ -880,6 +887,9 @@ class Interp(object):
         kwargs = dict(kwargs)
         fault = st[4]
         call = self._begin(tname, fault=fault, result=st[3])
+        if fault == 'raises_opaque':
+            call['result'] = ('raise', D.ErrOpaque)
+            env.run.fault('raises_opaque')
         call['args'] = (args, kwargs)
         svc_sent = getattr(svc, 'sent', None)
         if svc_sent is not None:
